@@ -208,13 +208,13 @@ func (h *Hook) OnDisconnect(cl *mqtt.Client, _ error, expire bool) {
 		return
 	}
 
+	if cl.StopCause() == packets.ErrSessionTakenOver {
+		return // a newer connection holds this client id: the stored record is its, not the superseded connection's
+	}
+
 	h.updateClient(cl)
 
 	if !expire {
-		return
-	}
-
-	if cl.StopCause() == packets.ErrSessionTakenOver {
 		return
 	}
 
